@@ -1,14 +1,20 @@
-//! Token machinery: lexer for shipped examples, token alphabet, single/double token edits.
+//! Token machinery: lexer for source texts, token alphabet, single/double token edits, seed texts.
 
+use crate::families;
+use crate::gen;
+use crate::lang::*;
+use crate::props::c01;
 use crate::report::Report;
-
-pub fn c03_sources(_rep: &Report, _quick: bool, _f: &dyn Fn(&str, &str)) {}
 
 /// The shipped example programs (name, text), read from /repo/examples at run time.
 pub fn examples() -> Vec<(String, String)> {
+    files_with_ext("simf")
+}
+
+pub fn files_with_ext(ext: &str) -> Vec<(String, String)> {
     let mut out = vec![];
     if let Ok(rd) = std::fs::read_dir("/repo/examples") {
-        let mut paths: Vec<_> = rd.filter_map(|e| e.ok()).map(|e| e.path()).filter(|p| p.extension().map_or(false, |x| x == "simf")).collect();
+        let mut paths: Vec<_> = rd.filter_map(|e| e.ok()).map(|e| e.path()).filter(|p| p.extension().map_or(false, |x| x == ext)).collect();
         paths.sort();
         for p in paths {
             if let Ok(t) = std::fs::read_to_string(&p) {
@@ -17,4 +23,267 @@ pub fn examples() -> Vec<(String, String)> {
         }
     }
     out
+}
+
+#[derive(Clone, Debug)]
+pub struct Lexed {
+    /// whitespace / comments before each token
+    pub pre: Vec<String>,
+    pub toks: Vec<String>,
+    pub tail: String,
+}
+
+/// Split a text into words, numbers and punctuation, keeping the separating whitespace and comments.
+pub fn lex(text: &str) -> Lexed {
+    let cs: Vec<char> = text.chars().collect();
+    let mut pre = vec![];
+    let mut toks = vec![];
+    let mut i = 0;
+    let mut ws = String::new();
+    while i < cs.len() {
+        let c = cs[i];
+        if c.is_whitespace() {
+            ws.push(c);
+            i += 1;
+        } else if c == '/' && i + 1 < cs.len() && cs[i + 1] == '/' {
+            while i < cs.len() && cs[i] != '\n' {
+                ws.push(cs[i]);
+                i += 1;
+            }
+        } else if c == '/' && i + 1 < cs.len() && cs[i + 1] == '*' {
+            ws.push_str("/*");
+            i += 2;
+            while i < cs.len() && !(cs[i] == '*' && i + 1 < cs.len() && cs[i + 1] == '/') {
+                ws.push(cs[i]);
+                i += 1;
+            }
+            if i < cs.len() {
+                ws.push_str("*/");
+                i += 2;
+            }
+        } else {
+            let start = i;
+            if c.is_alphanumeric() || c == '_' {
+                while i < cs.len() && (cs[i].is_alphanumeric() || cs[i] == '_') {
+                    i += 1;
+                }
+            } else if c == '"' {
+                // JSON string
+                i += 1;
+                while i < cs.len() && cs[i] != '"' {
+                    if cs[i] == '\\' {
+                        i += 1;
+                    }
+                    i += 1;
+                }
+                i = (i + 1).min(cs.len());
+            } else if (c == ':' && cs.get(i + 1) == Some(&':')) || (c == '-' && cs.get(i + 1) == Some(&'>')) || (c == '=' && cs.get(i + 1) == Some(&'>')) {
+                i += 2;
+            } else {
+                i += 1;
+            }
+            pre.push(std::mem::take(&mut ws));
+            toks.push(cs[start..i].iter().collect());
+        }
+    }
+    Lexed { pre, toks, tail: ws }
+}
+
+pub fn unlex(l: &Lexed) -> String {
+    let mut s = String::new();
+    for (p, t) in l.pre.iter().zip(&l.toks) {
+        s.push_str(p);
+        s.push_str(t);
+    }
+    s.push_str(&l.tail);
+    s
+}
+
+/// Token alphabet.  `huge` adds size tokens >= 2^20 (allocation blow-ups: C06 only, in isolated workers).
+pub fn alphabet(quick: bool, huge: bool) -> Vec<String> {
+    let mut v: Vec<&str> = vec![
+        // keywords and punctuation
+        "fn", "let", "match", "type", "mod", "const", "(", ")", "{", "}", "[", "]", "<", ">", ",", ";", ":", "::", "->", "=>", "=", "!", "_",
+        // builtin names
+        "u8", "u1", "u256", "bool", "Either", "Option", "List", "true", "false", "None", "Some", "Left", "Right", "witness", "param", "jet", "main", "unwrap", "unwrap_left", "assert", "panic", "dbg", "into", "fold", "for_while", "is_none", "list",
+        // identifiers and literals
+        "a", "x1", "0", "1", "255", "256", "0x", "0b", "0x_", "0b_", "__", "1_", "_1", "00", "0x0", "0b2", "0xg", "0xff", "0b1",
+        // whitespace-ish and non-ASCII
+        "\r", "\n", "\t", "é", "嗨", "//", "/*", "*/",
+    ];
+    if !quick {
+        v.extend([
+            "Ctx8", "Pubkey", "u2", "u4", "u16", "u32", "u64", "u128", "unwrap_right", "eq_8", "verify", "2", "3", "4", "65536", "4294967296", "9223372036854775808", "18446744073709551615", "18446744073709551616", "1000000000000000000000000000000",
+            "\"", "\\", "'", "#", "@", "$", "%", "&", "*", "+", "-", "/", ".", "?", "|", "~", "^", "\u{0}", "\u{feff}", "\u{202e}",
+        ]);
+    }
+    let mut out: Vec<String> = v.into_iter().map(|s| s.to_string()).collect();
+    if !quick {
+        for n in [20usize, 39, 78, 79, 400] {
+            out.push("9".repeat(n));
+        }
+        out.push(format!("0x{}", "f".repeat(65)));
+        out.push(format!("0b{}", "1".repeat(257)));
+    }
+    if huge {
+        // sizes whose allocation fails at once under the workers' address-space limit; the merely slow ones
+        // (2^20, 2^24 elements) only in the thorough tier, where the watchdog budget allows them
+        for s in ["1000000000000", "2147483648"] {
+            out.push(s.to_string());
+        }
+        if !quick {
+            for s in ["1048576", "16777216"] {
+                out.push(s.to_string());
+            }
+        }
+    }
+    out
+}
+
+/// All single-token edits: delete / duplicate / replace-by-each / insert-each-before, at every position.
+pub fn single_edits(l: &Lexed, alphabet: &[String], f: &mut dyn FnMut(String, &str)) {
+    let n = l.toks.len();
+    for i in 0..n {
+        // delete
+        let mut m = l.clone();
+        m.toks[i] = String::new();
+        f(unlex(&m), "delete");
+        // duplicate
+        let mut m = l.clone();
+        m.toks[i] = format!("{} {}", l.toks[i], l.toks[i]);
+        f(unlex(&m), "duplicate");
+        for a in alphabet {
+            if *a != l.toks[i] {
+                let mut m = l.clone();
+                m.toks[i] = a.clone();
+                f(unlex(&m), "replace");
+            }
+            let mut m = l.clone();
+            m.toks[i] = format!("{} {}", a, l.toks[i]);
+            f(unlex(&m), "insert");
+        }
+    }
+    for a in alphabet {
+        let mut m = l.clone();
+        m.tail = format!(" {}{}", a, l.tail);
+        f(unlex(&m), "append");
+    }
+}
+
+/// Maximum bracket nesting depth of a text (any of ( [ { <), ignoring nothing: a cheap over-approximation.
+pub fn bracket_depth(text: &str) -> usize {
+    let mut d: i64 = 0;
+    let mut m: i64 = 0;
+    for c in text.chars() {
+        match c {
+            '(' | '[' | '{' | '<' => {
+                d += 1;
+                m = m.max(d);
+            }
+            ')' | ']' | '}' | '>' => d = (d - 1).max(0),
+            _ => {}
+        }
+    }
+    m as usize
+}
+
+/// A kitchen-sink program in which every expression / item form occurs once (rendered from the harness AST).
+pub fn kitchen_sink() -> Vec<(String, String)> {
+    families::static_family().into_iter().map(|(n, p)| (n, p.render())).collect()
+}
+
+/// Seed program texts: family samples covering every form, the static family, the shipped examples.
+pub fn program_seeds(quick: bool) -> Vec<(String, String)> {
+    let mut out = kitchen_sink();
+    let fams = c01::families(true);
+    let (jobs, fns, _, _) = c01::enumerate(&fams[..1], None);
+    let stride = if quick { 997 } else { 211 };
+    for (i, job) in jobs.iter().enumerate().step_by(stride) {
+        let fam = &fams[job.fam].1;
+        let free = gen::free_typed(&job.expr, &fam.universe);
+        let extra = gen::fns_for(&job.expr, &fns[job.fam]);
+        out.push((format!("F-A#{i}"), gen::wrap_term(&job.expr, &job.ty, &free, &extra).render()));
+    }
+    out.extend(examples());
+    out
+}
+
+pub fn witness_module_seeds() -> Vec<(String, String)> {
+    vec![
+        ("wit-module".into(), "mod witness {\n    const A: u8 = 5;\n    const B: (u16, bool) = (0xbeef, true);\n    const C: List<u8, 4> = list![1, 2];\n    const D: [u8; 2] = 0x0102;\n    const E: Either<u8, Option<u1>> = Right(Some(1));\n}\n".into()),
+        ("param-module".into(), "mod param {\n    const KEY: u256 = 0x79be667ef9dcbbac55a06295ce870b07029bfcdb2dce28d959f2815b16f81798;\n    const N: u32 = 1_000;\n}\nmod witness {}\n".into()),
+    ]
+}
+
+pub fn json_seeds() -> Vec<(String, String)> {
+    let mut out = vec![("json-small".to_string(), "{\n    \"A\": {\n        \"value\": \"Left(0x01)\",\n        \"type\": \"Either<u8, [u8; 2]>\"\n    },\n    \"B\": { \"value\": \"(1, true)\", \"type\": \"(u8, bool)\" }\n}\n".to_string())];
+    for (n, t) in files_with_ext("wit").into_iter().take(3) {
+        out.push((n, t));
+    }
+    for (n, t) in files_with_ext("args").into_iter().take(1) {
+        out.push((n, t));
+    }
+    out
+}
+
+/// Edits at one token position (or the append position when `pos == toks.len()`).
+pub fn edits_at(l: &Lexed, pos: usize, alphabet: &[String], f: &mut dyn FnMut(String, &str)) {
+    let n = l.toks.len();
+    if pos >= n {
+        for a in alphabet {
+            let mut m = l.clone();
+            m.tail = format!(" {}{}", a, l.tail);
+            f(unlex(&m), &format!("append[{a:?}]"));
+        }
+        return;
+    }
+    let i = pos;
+    let old = &l.toks[i];
+    let mut m = l.clone();
+    m.toks[i] = String::new();
+    f(unlex(&m), &format!("delete[{old:?}]"));
+    let mut m = l.clone();
+    m.toks[i] = format!("{} {}", l.toks[i], l.toks[i]);
+    f(unlex(&m), &format!("duplicate[{old:?}]"));
+    for a in alphabet {
+        if *a != l.toks[i] {
+            let mut m = l.clone();
+            m.toks[i] = a.clone();
+            f(unlex(&m), &format!("replace[{old:?}->{a:?}]"));
+        }
+        let mut m = l.clone();
+        m.toks[i] = format!("{} {}", a, l.toks[i]);
+        f(unlex(&m), &format!("insert[{a:?} before {old:?}]"));
+    }
+}
+
+/// Run `f(text, origin)` for every single-token edit of every seed, in parallel over (seed, position).
+pub fn par_single_edits(rep: &Report, seeds: &[(String, String)], alphabet: &[String], f: &(dyn Fn(&str, &str) + Sync)) {
+    let lexed: Vec<Lexed> = seeds.iter().map(|s| lex(&s.1)).collect();
+    let mut jobs: Vec<(usize, usize)> = vec![];
+    for (si, l) in lexed.iter().enumerate() {
+        for p in 0..=l.toks.len() {
+            jobs.push((si, p));
+        }
+    }
+    crate::explore::par_for(&jobs, rep, 8, |_, &(si, p)| {
+        edits_at(&lexed[si], p, alphabet, &mut |m, op| {
+            f(&m, &format!("token-{op}@{p} on {}", seeds[si].0));
+        });
+    });
+}
+
+/// Token-level sources for C03: accepted token mutants of the shipped examples and of the kitchen-sink programs.
+pub fn c03_sources(rep: &Report, quick: bool, f: &(dyn Fn(&str, &str) + Sync)) {
+    let alpha = alphabet(true, false);
+    let mut seeds = kitchen_sink();
+    let mut ex = examples();
+    ex.sort_by_key(|e| e.1.len());
+    let take = if quick { 3 } else { ex.len() };
+    seeds.extend(ex.into_iter().take(take));
+    par_single_edits(rep, &seeds, &alpha, &|m, origin| {
+        if bracket_depth(m) <= 12 {
+            f(m, origin);
+        }
+    });
 }
